@@ -6,6 +6,7 @@ import MW.Model.Sign
 import MW.Drv.Vm
 import MW.Model.KsBytes
 import MW.Model.SignTab
+import MW.Model.TxLoc
 namespace MW.Drv.Sec
 open MW MW.Model
 
@@ -76,8 +77,9 @@ def symEngine : Sign.Engine symCrypto String where
 abbrev clsOf : Ledger.Cls → Sign.Class := SignTab.clsOf
 
 open Ledger in
-/-- existsMsgTx / existsUnminedTx / index check / existsOutPoint of signWitnessTx, on the ledger model -/
-def resolve (l : Led.St) (w : String) (op : Sign.OutPoint) : Except Sign.Err (Sign.PrevOut String) :=
+/-- existsMsgTx / existsUnminedTx / index check / existsOutPoint of signWitnessTx, on the ledger model; `len` = encoded
+    length of a transaction (FetchTxByLoc reads by byte offset: `Node.txAtLoc`) -/
+def resolve (l : Led.St) (len : Ledger.Tx → Nat) (w : String) (op : Sign.OutPoint) : Except Sign.Err (Sign.PrevOut String) :=
   let s := l.store
   -- existsMsgTx: the wallet's unspent entry, else any credit of that transaction with that index
   let cred : Option CredKey :=
@@ -88,7 +90,7 @@ def resolve (l : Led.St) (w : String) (op : Sign.OutPoint) : Except Sign.Err (Si
     match cred with
     | some ck =>
       match AMap.get s.txrecs (op.tx, ck.blk) with
-      | some loc => match l.node.txByLoc ck.blk.height loc with
+      | some loc => match l.node.txAtLoc len ck.blk.height loc with
         | some t => if t.id = op.tx then some t else none
         | none => none
       | none => none
@@ -122,8 +124,8 @@ def resolve (l : Led.St) (w : String) (op : Sign.OutPoint) : Except Sign.Err (Si
       | some o => .ok ⟨o.amt, clsOf o.cls, o.addr⟩
       | none => .error .index
 
-def envOf (l : Led.St) (w : String) (pass : String) : Sign.Env symCrypto String where
-  resolve := resolve l w
+def envOf (l : Led.St) (len : Ledger.Tx → Nat) (w : String) (pass : String) : Sign.Env symCrypto String where
+  resolve := resolve l len w
   pubOf := fun a => match AMap.get l.own a with | some (w', _) => if w' = w then some a else none | none => none
   skOf := fun a => match AMap.get l.own a with | some (w', _) => if w' = w then some a else none | none => none
   params := pass
@@ -174,7 +176,7 @@ def specSign (st : St) (w pass flag : String) (t : Ledger.Tx) : Option String :=
 open Ledger in
 /-- `prevHeight` of signWitnessTx: the height of the block the previous transaction is mined in (the BlockMeta existsMsgTx
     returns), else SyncedTo + 1 ("it can only be mined above the tip") -/
-def prevHeight (l : Led.St) (w : String) (op : Sign.OutPoint) : Nat :=
+def prevHeight (l : Led.St) (len : Ledger.Tx → Nat) (w : String) (op : Sign.OutPoint) : Nat :=
   let s := l.store
   let cred : Option CredKey :=
     match AMap.get s.unspent (w, op.tx, op.idx) with
@@ -184,7 +186,7 @@ def prevHeight (l : Led.St) (w : String) (op : Sign.OutPoint) : Nat :=
     match cred with
     | some ck =>
       match AMap.get s.txrecs (op.tx, ck.blk) with
-      | some loc => match l.node.txByLoc ck.blk.height loc with
+      | some loc => match l.node.txAtLoc len ck.blk.height loc with
         | some t => if t.id = op.tx then some ck.blk.height else none
         | none => none
       | none => none
@@ -197,10 +199,10 @@ def prevHeight (l : Led.St) (w : String) (op : Sign.OutPoint) : Nat :=
     whose previous height has reached the warm-up height is run under ScriptMASSip2 (class `bind2`) -/
 def envVm (T : SignTab.Tab) (l : Led.St) (w pass : String) (warm : Nat) : Sign.Env (SignTab.tabCrypto T) Bytes where
   resolve := fun op =>
-    match resolve l w op with
+    match resolve l (Led.lenOf l.shape) w op with
     | .error e => .error e
     | .ok po =>
-      .ok ⟨po.amt, po.cls.atHeight warm (prevHeight l w op), SignTab.shOf T po.addr⟩
+      .ok ⟨po.amt, po.cls.atHeight warm (prevHeight l (Led.lenOf l.shape) w op), SignTab.shOf T po.addr⟩
   pubOf := fun h =>
     match SignTab.keyOf T h with
     | some (a, k) => (match AMap.get l.own a with | some (w', _) => if w' = w then some k else none | none => none)
@@ -469,7 +471,7 @@ def step (st : St) (args : List String) : St × String :=
           let ks := { st.ks with wal := Secrets.clearAll st.ks.wal }
           -- with oracle tokens: the script VM model over real bytes; without (corpus lines): the symbolic engine
           let m := if toks.isEmpty then
-              (match (Sign.signTx symEngine (envOf st.led w r.pass) (Sign.Lock.locked symCrypto) p fl (toSignTx tx)).2 with
+              (match (Sign.signTx symEngine (envOf st.led (Led.lenOf st.led.shape) w r.pass) (Sign.Lock.locked symCrypto) p fl (toSignTx tx)).2 with
                | .ok _ => "ok" | .error e => errTok e)
             else signVm st w r.pass p fl tx toks
           ({ st with ks := ks }, withSpec m sp)
@@ -482,9 +484,16 @@ def step (st : St) (args : List String) : St × String :=
     if (Led.parseList outs).any unknown then (st, "err") else
     let (l, o) := Led.step st.led args
     ({ st with led := l }, o)
-  | ["txlock", t, lock, _] =>
-    -- lock time and payload are covered by the signature hash only: no effect on the model
-    if (AMap.get st.led.txs t).isNone || lock.toNat?.isNone then (st, "bad-op") else (st, "ok")
+  | ["txlock", t, lock, pl] =>
+    -- lock time and payload are covered by the signature hash only: no effect on the signing model (they change the
+    -- encoded length: payload = the given bytes ‖ NAME)
+    match AMap.get st.led.txs t, lock.toNat? with
+    | some _, some lk =>
+      let shape := match AMap.get st.led.shape t with
+        | some s => AMap.put st.led.shape t { s with lock := lk, payload := (if pl = "-" then 0 else pl.length / 2) + t.utf8ByteSize }
+        | none => st.led.shape
+      ({ st with led := { st.led with shape := shape } }, "ok")
+    | _, _ => (st, "bad-op")
   | "autosign" :: w :: p :: flag :: rest =>
     -- oracle tokens (if any) follow the must|may word
     let toks := (rest.dropWhile (fun s => s != "must" && s != "may")).drop 1
